@@ -28,12 +28,25 @@ class BuildLock:
         self.f.close()
 
 
-def build_flavour(ctx, flavour, targets=("objsim",)):
-    """library objects of this flavour from the repo's working tree + the harness linked against them"""
+# flavours that are a base flavour plus SKINNY_VERIF hook switches (so that a replay file can name them)
+FLAVOUR_SPECS = {
+    "tsanhook_w32": ("tsanhook", ("SKINNY_VERIF", "SKINNY_VERIF_64BIT=0")),
+    "tsanhook_w32_u0_nosimd": ("tsanhook", ("SKINNY_VERIF", "SKINNY_VERIF_64BIT=0", "SKINNY_VERIF_UNALIGNED=0", "SKINNY_VERIF_VEC128_MATH=0", "SKINNY_VERIF_VEC256_MATH=0")),
+    "tsanhook_neutral": ("tsanhook", ("SKINNY_VERIF", "SKINNY_VERIF_LITTLE_ENDIAN=0", "SKINNY_VERIF_VEC128_MATH=0", "SKINNY_VERIF_VEC256_MATH=0")),
+}
+
+
+def build_flavour(ctx, flavour, targets=("objsim",), base=None, defs=()):
+    """library objects of this flavour from the repo's working tree + the harness linked against them.
+    `flavour` names the output directory; `base` (default: the same) is the buildlib flavour, `defs` extra -D switches (SKINNY_VERIF hook)."""
+    if base is None and flavour in FLAVOUR_SPECS:
+        base, defs = FLAVOUR_SPECS[flavour]
     with BuildLock(ctx.B):
         libdir = os.path.join(ctx.B, flavour, "lib")
-        p = subprocess.run([sys.executable, os.path.join(ctx.V, "mk", "buildlib.py"), flavour, libdir, "--repo", ctx.repo],
-                           capture_output=True, text=True)
+        cmd = [sys.executable, os.path.join(ctx.V, "mk", "buildlib.py"), base or flavour, libdir, "--repo", ctx.repo]
+        for d in defs:
+            cmd += ["--def", d]
+        p = subprocess.run(cmd, capture_output=True, text=True)
         if p.returncode != 0:
             sys.stderr.write(p.stdout + p.stderr)
             raise SystemExit(2)
@@ -108,8 +121,8 @@ EXPECT_PROBES = {
 }
 
 
-def run_objsim(ctx, flavour, prop, runs, first, known_sigs, extra=()):
-    d = build_flavour(ctx, flavour)
+def run_objsim(ctx, flavour, prop, runs, first, known_sigs, extra=(), build=True):
+    d = build_flavour(ctx, flavour) if build else os.path.join(ctx.B, flavour)
     out = os.path.join(ctx.B, "out", "%s-%s-%d.json" % (prop, flavour, os.getpid()))
     os.makedirs(os.path.dirname(out), exist_ok=True)
     cmd = [os.path.join(d, "objsim"), "--prop", prop, "--tier", ctx.tier, "--seed", str(ctx.seed), "--out", out,
